@@ -74,6 +74,9 @@ def oracle(case, obs):
     # except the completion of the cycle in progress (none of our sources emits at the END of a cycle)
     stopped = True
     for step, (a, o) in enumerate(zip([None] + case["actions"], obs)):
+        if a is not None and a[0] == "multi":
+            stopped = o["stopped"]
+            continue
         if a is not None and a[0] != "start" and stopped and o["deliv"]:
             out.append(("C18", "C18/emit-after-stop/%s" % sp["k"], "step %d (%s) delivered %r although the source was stopped" % (step, a[0], o["deliv"])))
             break
@@ -105,6 +108,10 @@ def gen(rng, tier):
             acts.append(["adv", rng.choice([1, 1, 2, 3, 4, 5])])
         if rng.random() < 0.25 and acts[-1][0] == "stop":
             acts.append(["start"])          # stop immediately followed by start
+        if rng.random() < 0.15:
+            # back-to-back calls without a turn of the loop (the polling coroutine has not started / noticed yet)
+            acts.append(["multi", rng.choice([["start", "stop", "start"], ["stop", "start"], ["start", "start"],
+                                              ["start", "stop"], ["stop", "start", "stop", "start"]])])
     return {"src": sp, "sink": rng.choice(["ctl", "ctl", "sync"]), "actions": acts}
 
 
@@ -150,6 +157,9 @@ def run(prop, tier, seed, replay=None):
                 out.violation(sig, msg, {"case": c})
                 nfind += 1
             break
+    modelled = [(c, o) for (c, o) in cos if not any(a[0] == "multi" for a in c["actions"])]
+    oracle_only = len(cos) - len(modelled)
+    cos_all, cos = cos, modelled
     mism, errors = correspondence("C18", cos, fixed=True)
     for p, o in errors:
         out.violation("C18/correspondence-error", "coqc failed: %s" % o[-300:], {"file": p}, no_input=True)
@@ -163,7 +173,7 @@ def run(prop, tier, seed, replay=None):
     if not proof["ok"]:
         out.violation("C18/proof/%s" % proof["failing"], "proof obligation no longer checks: %s" % proof["failing"],
                       {"theorem_or_file": proof["failing"], "log": proof["log"][-2000:]}, no_input=True)
-    cov = {"evaluations": len(cos), "distinct_nontrivial": len(nontriv),
+    cov = {"evaluations": len(cos_all), "oracle_only_cases_with_back_to_back_calls": oracle_only, "distinct_nontrivial": len(nontriv),
            "rule": "exhaustive start/stop/ack/advance words of length 5 (quick) or 7 (thorough) over from_periodic and from_iterable with controlled and synchronous sinks, plus random longer histories (stop immediately followed by start is favoured); non-trivial = at least one delivery",
            "exhaustive": False, "traces_validated_against_impl": len(cos) - len(mism), "disagreements_checked": len(mism),
            "samples": [cos[i][0] for i in (0, len(cos) // 2) if cos]}
